@@ -349,32 +349,35 @@ def _build_mbi(fam, rev, rng, wd, size_cls, flags_at=None):
         app[at + 0x24:at + 0x28] = struct.pack("<I", word)
         app = bytes(app)
         variants = [v for v in variants if v == ("xip", "plain")] or variants
-    with open(os.path.join(wd, "mbi_app.bin"), "wb") as f:
-        f.write(app)
     version = rng.randrange(0, 8)
     last = None
-    for target, auth in variants:
-        cfg = {
-            "family": fam,
-            "revision": rev,
-            "outputImageExecutionTarget": {"xip": "xip", "load_to_ram": "load-to-ram"}[target],
-            "outputImageAuthenticationType": auth,
-            "masterBootOutputFile": "mbi_out.bin",
-            "inputImageFile": "mbi_app.bin",
-            "outputImageExecutionAddress": 0x10000000 if target == "xip" else 0x20000000,
-            "imageVersion": version,
-        }
-        try:
-            cls = get_mbi_class(cfg)
-            schemas = cls.get_validation_schemas(fam)
-            if any("enableHwUserModeKeys" in sch.get("properties", {}) for sch in schemas):
-                cfg["enableHwUserModeKeys"] = False
-            check_config(cfg, schemas, search_paths=[wd])
-            mbi = cls()
-            mbi.load_from_config(cfg, search_paths=[wd])
-            return mbi.export(), f"mbi:{target}/{auth}/{size_cls}"
-        except SPSDKError as e:  # this variant needs more than a minimal configuration (e.g. a boot config area)
-            last = e
+    # the DSC (MC56F8xxxx / MWCT) image types need an application that contains the whole 0xC00-byte header area;
+    # when the minimal application is refused by every variant it is tried once more at that size
+    for app_try in (app, app.ljust(0xC00 + len(app), b"\x5a")):
+      with open(os.path.join(wd, "mbi_app.bin"), "wb") as f:
+        f.write(app_try)
+      for target, auth in variants:
+          cfg = {
+              "family": fam,
+              "revision": rev,
+              "outputImageExecutionTarget": {"xip": "xip", "load_to_ram": "load-to-ram"}[target],
+              "outputImageAuthenticationType": auth,
+              "masterBootOutputFile": "mbi_out.bin",
+              "inputImageFile": "mbi_app.bin",
+              "outputImageExecutionAddress": 0x10000000 if target == "xip" else 0x20000000,
+              "imageVersion": version,
+          }
+          try:
+              cls = get_mbi_class(cfg)
+              schemas = cls.get_validation_schemas(fam)
+              if any("enableHwUserModeKeys" in sch.get("properties", {}) for sch in schemas):
+                  cfg["enableHwUserModeKeys"] = False
+              check_config(cfg, schemas, search_paths=[wd])
+              mbi = cls()
+              mbi.load_from_config(cfg, search_paths=[wd])
+              return mbi.export(), f"mbi:{target}/{auth}/{size_cls}"
+          except SPSDKError as e:  # this variant needs more than a minimal configuration (e.g. a boot config area)
+              last = e
     raise core.Inconclusive(f"{fam}: no plain/crc MBI variant builds from a minimal configuration: {core.exc_brief(last)}")
 
 
